@@ -719,11 +719,9 @@ func stubJSONMarshal(t *Thread, fn *ssa.Function, args []Value, pos token.Pos) V
 	m := e.json.marshal[k]
 	if m == nil {
 		n := len(e.json.marshal)
-		m = &jsonM{bytes: &Opaque{kind: "json", data: n}, err: e.ts.Var(fmt.Sprintf("json_merr_%d", n), BoolSort)}
+		m = &jsonM{bytes: &Opaque{kind: "json", data: n}, err: e.envBool(fmt.Sprintf("json_merr_%d", n), "json.marshal.err")}
 		e.errSeq++
 		m.eobj = Iface{t: engineErrPlain, v: &ErrObj{msg: e.freshStr("jsonerr"), id: e.errSeq, name: "json.Marshal error"}}
-		e.nondets = append(e.nondets, m.err)
-		e.nondetLabels = append(e.nondetLabels, "json.marshal.err")
 		e.json.marshal[k] = m
 	}
 	if t.truth(m.err, "json.Marshal.err") {
@@ -762,9 +760,7 @@ func stubJSONUnmarshal(t *Thread, fn *ssa.Function, args []Value, pos token.Pos)
 	u := e.json.unmarshal[k]
 	if u == nil {
 		n := len(e.json.unmarshal)
-		u = &jsonU{err: e.ts.Var(fmt.Sprintf("json_uerr_%d", n), BoolSort), eobj: mkErr("json.Unmarshal error")}
-		e.nondets = append(e.nondets, u.err)
-		e.nondetLabels = append(e.nondetLabels, "json.unmarshal.err")
+		u = &jsonU{err: e.envBool(fmt.Sprintf("json_uerr_%d", n), "json.unmarshal.err"), eobj: mkErr("json.Unmarshal error")}
 		u.val = e.havoc(pt.Elem(), fmt.Sprintf("json_u%d", n), 0)
 		e.json.unmarshal[k] = u
 	}
@@ -780,6 +776,22 @@ func stubJSONUnmarshal(t *Thread, fn *ssa.Function, args []Value, pos token.Pos)
 func (e *Exec) havoc(ty types.Type, name string, depth int) Value {
 	switch u := ty.Underlying().(type) {
 	case *types.Basic:
+		if e.concrete != nil {
+			bits := e.concrete[name]
+			switch {
+			case u.Info()&types.IsBoolean != 0:
+				return e.ts.Bool(bits != 0)
+			case u.Info()&types.IsInteger != 0:
+				return e.ts.BV(intWidth(u), bits)
+			case u.Info()&types.IsFloat != 0:
+				if u.Kind() == types.Float32 {
+					return e.ts.FPBits(32, bits)
+				}
+				return e.ts.FPBits(64, bits)
+			case u.Info()&types.IsString != 0:
+				return e.ts.BV(32, bits)
+			}
+		}
 		switch {
 		case u.Info()&types.IsBoolean != 0:
 			return e.ts.Var(name, BoolSort)
@@ -813,3 +825,15 @@ func (e *Exec) havoc(ty types.Type, name string, depth int) Value {
 }
 
 var opaqueDyn = types.NewNamed(types.NewTypeName(token.NoPos, types.NewPackage("flytsym/rt", "rt"), "jsonValue", nil), types.NewStruct(nil, nil), nil)
+
+// envBool is a symbolic boolean chosen by the environment (a stub's uninterpreted outcome); under
+// concrete re-execution it takes the model's value.
+func (e *Exec) envBool(name, label string) *Term {
+	if e.concrete != nil {
+		return e.ts.Bool(e.concrete[name] != 0)
+	}
+	v := e.ts.Var(name, BoolSort)
+	e.nondets = append(e.nondets, v)
+	e.nondetLabels = append(e.nondetLabels, label)
+	return v
+}
